@@ -107,7 +107,13 @@ var c10Descs = []string{"rent", "Insurance 2020", "Währung", "a (b) c", "x", "S
 
 func c10Amount(r *rng) string {
 	var s string
-	switch r.intn(14) {
+	switch r.intn(15) {
+	case 14:
+		// the decimal expansion of a float64 sum, as an export of a float-based system writes it: 16-17 significant
+		// digits just below or above a round number (seeded change C10g-accrual-div-instead-of-quorem divided with
+		// 16 places of precision and was off by a whole step for such amounts)
+		s = pick(r, []string{"0.8999999999999999", "1.1999999999999999", "0.30000000000000004", "2.6999999999999997", "0.5999999999999999",
+			"11.999999999999998", "1.0999999999999999", "0.7999999999999999", "3.5999999999999996", "0.09999999999999999", "89.99999999999999"})
 	case 0:
 		s = "0"
 	case 1:
